@@ -148,6 +148,10 @@ def _history_shard(seqs):
 
 
 def replay(ctx, case):
+    if "cfg" in case:
+        from .. import netrun
+
+        return netrun.replay_case(net_oracle, case)
     if "seq" in case:
         return _history_child(case["seq"])
     return check_case(case)
@@ -190,18 +194,43 @@ def run(ctx):
             # shortest failing suffix pair identifies the failure
             ctx.violation("history|%s" % ">".join(seq[-2:]) + "|" + probs[0].split(": ", 1)[-1][:50], "; ".join(probs[:3]), dict(seq=seq))
     evals += nh
-    # net part: every command stream tensor of compiled networks is checked by the sweep (see C06/C02 drivers)
-    cov = dict(
-        evaluations=evals,
-        distinct_nontrivial=len(distinct),
-        rule="every length 0..%d and boundary lengths %s x 6 accelerators x {public api, internal entry}; distinct = (accelerator, length) pairs; "
-             "all are non-trivial (each length lands on a different NOP count / length-field split)" % (maxlen, big),
-        samples=[dict(acc="ethos-u55-128", n=5, payload=check_payload_hex("ethos-u55-128", 5))],
-        exhaustive=True,
-        histories=nh,
-        bound="lengths 0..%d complete; beyond that only the listed boundary lengths; accelerator call histories complete to depth %d" % (maxlen, depth),
-    )
-    return ctx.finish("exploration", cov, ["pinned framing table in vfw/npu/isa.py (config/id word layout, action tags) is the hardware/driver truth"])
+    # net part: the command-stream tensor of every Ethos-U operator of every compiled network, as stored in the output file
+    from .. import netrun
+    from ..tfl import nets
+
+    plan = [("G1xC8", nets.STARTS_Q, nets.SIGMA_Q, 1, "c8")] if ctx.tier == "quick" else None
+    return netrun.run(
+        ctx, net_oracle, "exploration",
+        rule="unit: every length 0..%d and boundary lengths %s x 6 accelerators x {public api, internal entry}, accelerator call histories to depth %d; "
+             "net: the stored command-stream tensor of every Ethos-U operator of the sweep: its bytes must be exactly the pinned framing of the words the generator returned "
+             "(header length = words that follow, nothing after them, tensor shape = byte length); non-trivial = compilations with at least one Ethos-U operator" % (maxlen, big, depth),
+        assumptions=["pinned framing table in vfw/npu/isa.py (config/id word layout, action tags) is the hardware/driver truth"],
+        plan=plan, nontrivial_stat="payloads", key_fn=lambda key, name: key,
+        extra_cov=dict(unit_evaluations=evals, unit_distinct=len(distinct), histories=nh, samples_unit=[dict(acc="ethos-u55-128", n=5, payload=check_payload_hex("ethos-u55-128", 5))],
+                       bound="lengths 0..%d complete; beyond that only the listed boundary lengths; accelerator call histories complete to depth %d" % (maxlen, depth)))
+
+
+def net_oracle(case, rec, an, streams, mb):
+    viol = []
+    stats = dict(payloads=0, payload_bytes=0)
+    acc = case["cfg"].get("acc", "ethos-u65-256")
+    sg = an["sg"]
+    for i, (n, s) in enumerate(zip(an["npu"], streams)):
+        b = n["payload"]
+        stats["payloads"] += 1
+        stats["payload_bytes"] += len(b)
+        probs, words = parse_payload(b, acc)
+        for p_ in probs:
+            viol.append(("payload|%s" % p_.split(",")[0][:40].replace("%", ""), "Ethos-U operator %d: %s" % (i, p_)))
+        shape = sg["tensors"][n["payload_tensor"]]["shape"]
+        if shape != [len(b)]:
+            viol.append(("payload|tensor-shape", "Ethos-U operator %d: command-stream tensor shape %s, buffer has %d bytes" % (i, shape, len(b))))
+        if s.side is not None and words is not None:
+            exp = expected_payload(list(s.side["words"]), acc)
+            if exp != b:
+                viol.append(("payload|differs-from-framing", "Ethos-U operator %d: stored payload (%d bytes) is not the framing of the %d words the generator returned (%d bytes)" % (
+                    i, len(b), len(s.side["words"]), len(exp))))
+    return viol, stats
 
 
 def check_payload_hex(acc, n):
